@@ -76,7 +76,7 @@ PROPS["C04"] = {
                         + module_theorems("JediVerif.Properties.C04b", "Jedi.C04") + module_theorems("JediVerif.Properties.C04c", "Jedi.C04") + module_theorems("JediVerif.Properties.C04d", "Jedi.C04"),
     "streams": lambda seed, tier: [
         {"cfg": c, "name": "tower", "lines": no_alias(gen("tower", seed, 8 if tier == "quick" else 40, tier))}
-        for c in cfgs(tier, ["asm"], ["asm", "asm+nobmi2", "asm-clang", "portable64", "portable32"])],
+        for c in cfgs(tier, ["asm", "portable64-O0"], ["asm", "asm+nobmi2", "asm-bmi2", "asm-clang", "portable64", "portable64-O0", "portable32", "portable32-O0"])],
     "hypotheses": [],
     "not_modelled": "nothing of fq2/fq6/fq12*.cpp is left to the correspondence alone: byte I/O, the generic exponentiate, Fq2 norm/Legendre/square_root are models run by the judge and theorems in C04d (the Fq6/Fq12 instantiations of exponentiate occur only in the repo's tests and are not run against the code)",
 }
